@@ -17,6 +17,7 @@ import JanetModel.Int64.IeeeQ
 import JanetModel.Int64.IeeeInt
 import JanetModel.Int64.MathQ
 import JanetModel.Int64.PredsQ
+import JanetModel.Int64.MixQ
 namespace JanetModel.Props.C14
 open JanetModel.Int64 JanetModel.Gen.Int64
 
@@ -581,6 +582,64 @@ theorem number_ops_agree_with_s64_ops (c : Cfg) (x y : ℤ) (hx : |x| ≤ 900719
   · exact divf_eq_floor_div _ x y hxs hy0 hmin
   · exact mod_eq_floor_mod _ x y hxs hys hy0 (Or.inr hmin)
   · exact ((trunc_div_rem_correct x y hy0).1 hmin).2
+
+/-- ★ **every type mix, both operand orders** (current tree): for integers x, y of magnitude ≤ 2^53 and each of `+ - * / % div mod`, the three
+    calls *int/s64 ⊕ number* (left operand's method), *number ⊕ int/s64* (the right operand's reversed method with swapped arguments —
+    `r-`, `r/`, `r%`, `rdiv`, `rmod` compute lhs ⊕ rhs) and *int/s64 ⊕ int/s64* all return the int/s64 box holding the same integer: the exact
+    sum / difference / product when it is an int64, `Int.tdiv` / `Int.tmod` for `/` `%`, `Int.fdiv` / `Int.fmod` for `div` `mod` (y ≠ 0) — the
+    integers `number_ops_agree_with_s64_ops` gives for number ⊕ number -/
+theorem s64_type_mixes_agree (N : NumOps) (x y : ℤ) (hx : |x| ≤ 9007199254740992) (hy : |y| ≤ 9007199254740992) :
+    (∀ p ∈ [("binop", "+", x + y), ("binop", "-", x - y), ("binop", "*", x * y)], Kind.s64.inRange p.2.2 →
+      vmOp cfgGen N p.1 p.2.1 (.s64 x) (Val.ofInt y) = .ok (.s64 p.2.2) ∧ vmOp cfgGen N p.1 p.2.1 (Val.ofInt x) (.s64 y) = .ok (.s64 p.2.2) ∧
+      vmOp cfgGen N p.1 p.2.1 (.s64 x) (.s64 y) = .ok (.s64 p.2.2)) ∧
+    (y ≠ 0 → ∀ p ∈ [("binop", "/", Int.tdiv x y), ("remainder", "%", Int.tmod x y), ("divfloor", "div", Int.fdiv x y), ("modulo", "mod", Int.fmod x y)],
+      vmOp cfgGen N p.1 p.2.1 (.s64 x) (Val.ofInt y) = .ok (.s64 p.2.2) ∧ vmOp cfgGen N p.1 p.2.1 (Val.ofInt x) (.s64 y) = .ok (.s64 p.2.2) ∧
+      vmOp cfgGen N p.1 p.2.1 (.s64 x) (.s64 y) = .ok (.s64 p.2.2)) := by
+  refine ⟨fun p hp hz => ?_, fun hy0 p hp => ?_⟩
+  · simp only [List.mem_cons, List.mem_nil_iff, or_false] at hp
+    rcases hp with rfl | rfl | rfl
+    · exact mix_add N x y hx hy hz
+    · exact mix_sub N x y hx hy hz
+    · exact mix_mul N x y hx hy hz
+  · simp only [List.mem_cons, List.mem_nil_iff, or_false] at hp
+    rcases hp with rfl | rfl | rfl | rfl
+    · exact mix_quot N x y hx hy hy0
+    · exact mix_rem N x y hx hy hy0
+    · exact mix_div N x y hx hy hy0
+    · exact mix_mod N x y hx hy hy0
+
+/-- ★ the same for int/u64 and non-negative x, y ≤ 2^53: *u64 ⊕ number*, *number ⊕ u64*, *u64 ⊕ u64* return the int/u64 box of the same integer
+    (`x / y`, `x % y` for all four division-like operators: on non-negative operands floor and truncation coincide, `u64_ops_agree_on_nonneg`) -/
+theorem u64_type_mixes_agree (N : NumOps) (x y : ℤ) (hx0 : 0 ≤ x) (hy0 : 0 ≤ y) (hx : |x| ≤ 9007199254740992) (hy : |y| ≤ 9007199254740992) :
+    (∀ p ∈ [("binop", "+", x + y), ("binop", "-", x - y), ("binop", "*", x * y)], Kind.u64.inRange p.2.2 →
+      vmOp cfgGen N p.1 p.2.1 (.u64 x) (Val.ofInt y) = .ok (.u64 p.2.2) ∧ vmOp cfgGen N p.1 p.2.1 (Val.ofInt x) (.u64 y) = .ok (.u64 p.2.2) ∧
+      vmOp cfgGen N p.1 p.2.1 (.u64 x) (.u64 y) = .ok (.u64 p.2.2)) ∧
+    (y ≠ 0 → ∀ p ∈ [("binop", "/", x / y), ("remainder", "%", x % y), ("divfloor", "div", x / y), ("modulo", "mod", x % y)],
+      vmOp cfgGen N p.1 p.2.1 (.u64 x) (Val.ofInt y) = .ok (.u64 p.2.2) ∧ vmOp cfgGen N p.1 p.2.1 (Val.ofInt x) (.u64 y) = .ok (.u64 p.2.2) ∧
+      vmOp cfgGen N p.1 p.2.1 (.u64 x) (.u64 y) = .ok (.u64 p.2.2)) := by
+  refine ⟨fun p hp hz => ?_, fun hyn p hp => ?_⟩
+  · simp only [List.mem_cons, List.mem_nil_iff, or_false] at hp
+    rcases hp with rfl | rfl | rfl
+    · exact mixu_add N x y hx0 hy0 hx hy hz
+    · exact mixu_sub N x y hx0 hy0 hx hy hz
+    · exact mixu_mul N x y hx0 hy0 hx hy hz
+  · simp only [List.mem_cons, List.mem_nil_iff, or_false] at hp
+    rcases hp with rfl | rfl | rfl | rfl
+    · exact mixu_quot N x y hx0 hy0 hx hy hyn
+    · exact mixu_rem N x y hx0 hy0 hx hy hyn
+    · exact mixu_div N x y hx0 hy0 hx hy hyn
+    · exact mixu_mod N x y hx0 hy0 hx hy hyn
+
+example : vmOp cfgGen Ieee.ieee "divfloor" "div" (Val.ofInt (-7)) (.s64 2) = .ok (.s64 (-4)) ∧
+    vmOp cfgGen Ieee.ieee "modulo" "mod" (.s64 (-7)) (Val.ofInt 2) = .ok (.s64 1) := by
+  have h := (s64_type_mixes_agree Ieee.ieee (-7) 2 (by decide) (by decide)).2 (by decide)
+  have h1 := (h ("divfloor", "div", Int.fdiv (-7) 2) (by simp)).2.1
+  have h2 := (h ("modulo", "mod", Int.fmod (-7) 2) (by simp)).1
+  have e1 : Int.fdiv (-7) 2 = -4 := by decide
+  have e2 : Int.fmod (-7) 2 = 1 := by decide
+  simp only [e1] at h1
+  simp only [e2] at h2
+  exact ⟨h1, h2⟩
 
 /-- … and int/u64 on non-negative operands: floor and truncating division (modulus, remainder) coincide there, and are what
     the u64 methods compute -/
